@@ -54,6 +54,7 @@ class World:
     def run(self, client, action, opts=None, *, unlock=True, profile=None, state=None, keep_log=False):
         r = world.run_process(self.env, world.session(self.factory(profile, state), client, action, unlock=unlock),
                               opts, keep_log=keep_log)
+        (state if state is not None else self.state).frozen = False   # durable state outlives the process
         self.sim_steps += r.stats['steps']
         self.sim_s += r.stats['sim_s']
         self.switches += r.stats['switches']
